@@ -78,7 +78,7 @@ T = {
     "C15": ("Hypothesis-generated families of sequences; union/fusion oracle + permutation metamorphic relation",
             "Generated search: sounding set = union, fused clusters, in-force-filtered signature union, max duration, and order "
             "independence (a second merge in permuted order).",
-            "Signature events at distinct ticks per kind across inputs."),
+            "Same-tick signature events of several inputs are resolved in merge order (the library documents its sort as stable)."),
     "C16": ("Hypothesis-generated originals x derivation routes x op lists on either side; aliasing oracle",
             "Generated histories: derive (copy at every level, split, bar splitting), mutate one side, the other side's canonical content "
             "in both views must be unchanged and its views must still agree.",
